@@ -131,7 +131,7 @@ Variable shs : spec_host -> list N.
 
 Theorem std_contain_agree b sb input : usv_list input -> full_base dbg shs b sb ->
   has_opaque_path sb = false -> list_eqb (su_scheme sb) str_file = false ->
-  contain_pre b input = true -> known_c01 (Some b) input = 0 ->
+  contain_pre b input = true -> known_c01_v1 (Some b) input = 0 ->
   host_hyp3 hp hpo hd shp shs (Some sb) input ->
   exists su, spec_basic_url_parse shp input (Some sb) = BDone su /\ spec_same_front sb su
     /\ ((parse_url dbg hp hpo hd None (Some b) input = PErr Overflow /\ U32_MAX_P < nlen (get_href shs su))
@@ -172,7 +172,7 @@ From RU Require Import Model.Host Proofs.C09_Host Spec.WhatwgHostParse.
 Theorem std_contain_agree_model dbg idna : IdnaOK idna -> forall b sb input,
   usv_list input -> full_base dbg spec_host_serializer b sb ->
   has_opaque_path sb = false -> list_eqb (su_scheme sb) str_file = false ->
-  contain_pre b input = true -> known_c01 (Some b) input = 0 ->
+  contain_pre b input = true -> known_c01_v1 (Some b) input = 0 ->
   exists su, spec_basic_url_parse (spec_host_parser idna) input (Some sb) = BDone su /\ spec_same_front sb su
     /\ ((parse_url dbg (host_parse idna) host_parse_opaque host_display None (Some b) input = PErr Overflow
          /\ U32_MAX_P < nlen (get_href spec_host_serializer su))
@@ -187,7 +187,7 @@ Qed.
 
 (* a parse result without a base and the Standard's are a full_base pair (second part of statement_all) *)
 Theorem parsed_full_base dbg idna : IdnaOK idna -> forall input u su,
-  usv_list input -> known_c01 None input = 0 ->
+  usv_list input -> known_c01_v1 None input = 0 ->
   parse_url dbg (host_parse idna) host_parse_opaque host_display None None input = POk u ->
   spec_basic_url_parse (spec_host_parser idna) input None = BDone su ->
   full_base dbg spec_host_serializer u su.
@@ -204,9 +204,9 @@ Definition std_case (base : list N) (refs : list (list N)) : bool :=
   match parse_url true (host_parse idna) host_parse_opaque host_display None None base,
         spec_basic_url_parse (spec_host_parser idna) base None with
   | POk b, BDone sb =>
-      (known_c01 None base =? 0) && negb (has_opaque_path sb) && negb (list_eqb (su_scheme sb) str_file)
+      (known_c01_v1 None base =? 0) && negb (has_opaque_path sb) && negb (list_eqb (su_scheme sb) str_file)
       && forallb (fun r =>
-           contain_pre b r && (known_c01 (Some b) r =? 0)
+           contain_pre b r && (known_c01_v1 (Some b) r =? 0)
            && match spec_basic_url_parse (spec_host_parser idna) r (Some sb),
                     parse_url true (host_parse idna) host_parse_opaque host_display None (Some b) r with
               | BDone su, POk u' =>
